@@ -15,7 +15,7 @@ import (
 // C07 — Open releases plaintext only for an authentic message. Expected
 // verdicts come from the reference GCM.
 
-type openProbe struct {
+type zvOpenProbe struct {
 	nonce, ct, aad []byte
 	label          string
 }
@@ -32,14 +32,14 @@ func TestVerifC07(t *testing.T) {
 	// plaintext's size that end at an inaccessible page, authentic and forged, for every tag size. An Open that writes
 	// more than the plaintext (whole blocks, the tag region) faults here instead of corrupting some heap object of the
 	// monitor; and a forged message must leave no plaintext behind in such a destination either.
-	for _, asm := range paths() {
+	for _, asm := range zvPaths() {
 		bad := false
-		withAsm(asm, func() {
-			pn := pathName(asm)
+		zvWithAsm(asm, func() {
+			pn := zvPathName(asm)
 			key := rng.Bytes(16)
 			g := ref.NewGCM(key)
 			for tag := 12; tag <= 16; tag++ {
-				a, err := newAEAD(key, 12, tag)
+				a, err := zvNewAEAD(key, 12, tag)
 				if err != nil {
 					continue
 				}
@@ -75,12 +75,12 @@ func TestVerifC07(t *testing.T) {
 			return // the path writes outside its destination: the heap of this process is not to be trusted any further
 		}
 	}
-	all := gcmCases(rng, 1)
-	all = append(all, wrapCases(rng, 20)...)
+	all := zvGcmCases(rng, 1)
+	all = append(all, zvWrapCases(rng, 20)...)
 	// messages that get the full mutation treatment
-	var full []*gcmCase
-	mk := func(nl, al, pl, tag int) *gcmCase {
-		return &gcmCase{key: rng.Bytes(16), nonce: rng.Bytes(nl), aad: rng.Bytes(al), pt: rng.Bytes(pl), tag: tag, label: "full-mutation"}
+	var full []*zvGcmCase
+	mk := func(nl, al, pl, tag int) *zvGcmCase {
+		return &zvGcmCase{key: rng.Bytes(16), nonce: rng.Bytes(nl), aad: rng.Bytes(al), pt: rng.Bytes(pl), tag: tag, label: "full-mutation"}
 	}
 	full = append(full, mk(12, 0, 0, 16), mk(12, 20, 1, 16), mk(12, 5, 15, 12), mk(12, 16, 16, 13), mk(12, 33, 17, 14), mk(12, 1, 64, 15),
 		mk(12, 128, 100, 16), mk(13, 17, 33, 16), mk(1, 3, 48, 16), mk(16, 0, 31, 16), mk(129, 200, 130, 16), mk(12, 257, 300, 12))
@@ -97,8 +97,8 @@ func TestVerifC07(t *testing.T) {
 	// thorough tier: a 4 GiB message (2^32 bytes of plaintext, 2^28 blocks; SP 800-38D allows 2^36-32 bytes)
 	// sealed in place and opened in place on the accelerated path: Open must return every output of Seal.
 	// Oracle: the round trip, plus ciphertext blocks at chosen positions against E_K(J0 + i + 1) by the model.
-	if hk.Thorough() && asmDetected {
-		withAsm(true, func() {
+	if hk.Thorough() && zvAsmDetected {
+		zvWithAsm(true, func() {
 			const n = 1 << 32
 			big := hk.ZeroMap(n+4096, true)
 			if big == nil {
@@ -107,7 +107,7 @@ func TestVerifC07(t *testing.T) {
 			}
 			defer hk.Unmap(big)
 			key, nonce, aad := rng.Bytes(16), rng.Bytes(12), rng.Bytes(20)
-			a, _ := newAEAD(key, 12, 16)
+			a, _ := zvNewAEAD(key, 12, 16)
 			var ct, back []byte
 			var oerr error
 			p, msg, _, _ := hk.Try(func() { ct = a.Seal(big[:0:n+16], nonce, big[:n], aad) })
@@ -178,34 +178,34 @@ func TestVerifC07(t *testing.T) {
 		g := ref.NewGCM(key)
 		short := g.Seal(nonce, pt, tail, 16)
 		long := g.SealZeroPrefixedAAD(nonce, pt, zeros, tail, 16)
-		for _, asm := range paths() {
+		for _, asm := range zvPaths() {
 			asm := asm
 			if !asm && !hk.Thorough() {
 				continue
 			}
-			withAsm(asm, func() {
-				a, err := newAEAD(key, 12, 16)
+			zvWithAsm(asm, func() {
+				a, err := zvNewAEAD(key, 12, 16)
 				if err != nil {
 					return
 				}
 				if out, err := a.Open(nil, nonce, short, huge); err == nil {
-					r.Violation("forgery-accepted:"+pathName(asm)+":zero-prefixed-aad", hk.D{"key": hk.Hex(key), "released": hk.Hex(out)})
+					r.Violation("forgery-accepted:"+zvPathName(asm)+":zero-prefixed-aad", hk.D{"key": hk.Hex(key), "released": hk.Hex(out)})
 				}
 				if _, err := a.Open(nil, nonce, long, tail); err == nil {
-					r.Violation("forgery-accepted:"+pathName(asm)+":zero-prefix-removed", hk.D{"key": hk.Hex(key)})
+					r.Violation("forgery-accepted:"+zvPathName(asm)+":zero-prefix-removed", hk.D{"key": hk.Hex(key)})
 				}
 				if out, err := a.Open(nil, nonce, long, huge); err != nil || !bytes.Equal(out, pt) {
-					r.Violation("authentic-message-rejected:"+pathName(asm)+":aad>=2^29-bytes", hk.D{"key": hk.Hex(key)})
+					r.Violation("authentic-message-rejected:"+zvPathName(asm)+":aad>=2^29-bytes", hk.D{"key": hk.Hex(key)})
 				}
-				r.EvalN(pathName(asm)+"|aad>=2^29-bytes", 3)
+				r.EvalN(zvPathName(asm)+"|aad>=2^29-bytes", 3)
 			})
 		}
 	}
-	for _, asm := range paths() {
+	for _, asm := range zvPaths() {
 		asm := asm
-		withAsm(asm, func() {
-			pn := pathName(asm)
-			open := func(a cipher.AEAD, c *gcmCase, pr openProbe, wantPT []byte, wantOK bool) {
+		zvWithAsm(asm, func() {
+			pn := zvPathName(asm)
+			open := func(a cipher.AEAD, c *zvGcmCase, pr zvOpenProbe, wantPT []byte, wantOK bool) {
 				var pt []byte
 				var err error
 				p, msg, _, _ := hk.Try(func() { pt, err = a.Open(nil, pr.nonce, pr.ct, pr.aad) })
@@ -240,8 +240,8 @@ func TestVerifC07(t *testing.T) {
 				lr := hk.NewRNG(hk.Seed(), fmt.Sprintf("c07/%d", i))
 				g := ref.NewGCM(c.key)
 				sealed := g.Seal(c.nonce, c.pt, c.aad, c.tag)
-				a, err := newAEAD(c.key, len(c.nonce), c.tag)
-				if err == errComboUnreachable {
+				a, err := zvNewAEAD(c.key, len(c.nonce), c.tag)
+				if err == zvErrComboUnreachable {
 					r.Class("trivial:nonce-x-tag-not-offered-on-this-path")
 					return
 				}
@@ -249,7 +249,7 @@ func TestVerifC07(t *testing.T) {
 					r.Violation("cannot-construct-aead:"+pn, hk.D{"err": err.Error()})
 					return
 				}
-				open(a, c, openProbe{c.nonce, sealed, c.aad, "authentic"}, c.pt, true)
+				open(a, c, zvOpenProbe{c.nonce, sealed, c.aad, "authentic"}, c.pt, true)
 				n := 1
 				// the authentic message opened IN PLACE (dst = ciphertext[:0], the idiom the interface documents)
 				if i%2 == 1 {
@@ -259,7 +259,7 @@ func TestVerifC07(t *testing.T) {
 					p, msg, _, _ := hk.Try(func() { got, oerr = a.Open(buf[:0], c.nonce, buf, c.aad) })
 					if p || oerr != nil || !bytes.Equal(got, c.pt) {
 						dd := c.detail()
-						dd["panic"], dd["err"], dd["returned"] = msg, fmt.Sprint(oerr), clip(got)
+						dd["panic"], dd["err"], dd["returned"] = msg, fmt.Sprint(oerr), zvClip(got)
 						r.Violation(fmt.Sprintf("authentic-message-rejected:%s:opened-in-place", pn), dd)
 					}
 					n++
@@ -294,29 +294,29 @@ func TestVerifC07(t *testing.T) {
 					p, msg, _, _ := hk.Try(func() { got, oerr = a.Open(dst, c.nonce, sealed, c.aad) })
 					if p || oerr != nil || len(got) != pre+len(c.pt) || !bytes.Equal(got[:pre], keep) || !bytes.Equal(got[pre:], c.pt) {
 						dd := c.detail()
-						dd["panic"], dd["err"], dd["dst_len"], dd["dst_cap"], dd["returned"] = msg, fmt.Sprint(oerr), pre, pre+room, clip(got)
+						dd["panic"], dd["err"], dd["dst_len"], dd["dst_cap"], dd["returned"] = msg, fmt.Sprint(oerr), pre, pre+room, zvClip(got)
 						r.Violation(fmt.Sprintf("authentic-message-not-returned-behind-dst-prefix:%s", pn), dd)
 					}
 					n++
 				}
-				probes := []openProbe{}
+				probes := []zvOpenProbe{}
 				if len(sealed) > 0 {
-					probes = append(probes, openProbe{c.nonce, flipBit(sealed, lr.Intn(len(sealed)*8)), c.aad, "flip-anywhere"})
-					probes = append(probes, openProbe{c.nonce, flipBit(sealed, (len(sealed)-1)*8+lr.Intn(8)), c.aad, "flip-last-tag-byte"})
-					probes = append(probes, openProbe{c.nonce, flipBit(sealed, (len(sealed)-c.tag)*8+lr.Intn(8)), c.aad, "flip-first-tag-byte"})
-					probes = append(probes, openProbe{c.nonce, sealed[:len(sealed)-1], c.aad, "drop-last-byte"})
+					probes = append(probes, zvOpenProbe{c.nonce, zvFlipBit(sealed, lr.Intn(len(sealed)*8)), c.aad, "flip-anywhere"})
+					probes = append(probes, zvOpenProbe{c.nonce, zvFlipBit(sealed, (len(sealed)-1)*8+lr.Intn(8)), c.aad, "flip-last-tag-byte"})
+					probes = append(probes, zvOpenProbe{c.nonce, zvFlipBit(sealed, (len(sealed)-c.tag)*8+lr.Intn(8)), c.aad, "flip-first-tag-byte"})
+					probes = append(probes, zvOpenProbe{c.nonce, sealed[:len(sealed)-1], c.aad, "drop-last-byte"})
 				}
 				if len(c.pt) > 0 {
-					probes = append(probes, openProbe{c.nonce, flipBit(sealed, lr.Intn(len(c.pt)*8)), c.aad, "flip-ciphertext"})
-					probes = append(probes, openProbe{c.nonce, sealed[1:], c.aad, "drop-first-byte"})
+					probes = append(probes, zvOpenProbe{c.nonce, zvFlipBit(sealed, lr.Intn(len(c.pt)*8)), c.aad, "flip-ciphertext"})
+					probes = append(probes, zvOpenProbe{c.nonce, sealed[1:], c.aad, "drop-first-byte"})
 				}
 				if len(c.aad) > 0 {
-					probes = append(probes, openProbe{c.nonce, sealed, flipBit(c.aad, lr.Intn(len(c.aad)*8)), "flip-aad"})
-					probes = append(probes, openProbe{c.nonce, sealed, c.aad[:len(c.aad)-1], "truncate-aad"})
+					probes = append(probes, zvOpenProbe{c.nonce, sealed, zvFlipBit(c.aad, lr.Intn(len(c.aad)*8)), "flip-aad"})
+					probes = append(probes, zvOpenProbe{c.nonce, sealed, c.aad[:len(c.aad)-1], "truncate-aad"})
 				}
-				probes = append(probes, openProbe{flipBit(c.nonce, lr.Intn(len(c.nonce)*8)), sealed, c.aad, "flip-nonce"})
-				probes = append(probes, openProbe{c.nonce, append(append([]byte{}, sealed...), 0), c.aad, "append-zero"})
-				probes = append(probes, openProbe{c.nonce, sealed, append(append([]byte{}, c.aad...), 0), "extend-aad"})
+				probes = append(probes, zvOpenProbe{zvFlipBit(c.nonce, lr.Intn(len(c.nonce)*8)), sealed, c.aad, "flip-nonce"})
+				probes = append(probes, zvOpenProbe{c.nonce, append(append([]byte{}, sealed...), 0), c.aad, "append-zero"})
+				probes = append(probes, zvOpenProbe{c.nonce, sealed, append(append([]byte{}, c.aad...), 0), "extend-aad"})
 				for _, pr := range probes {
 					wpt, wok := g.Open(pr.nonce, pr.ct, pr.aad, c.tag)
 					open(a, c, pr, wpt, wok)
@@ -330,9 +330,9 @@ func TestVerifC07(t *testing.T) {
 						aadP := c.aad
 						switch kind {
 						case "tag-bit":
-							bad = flipBit(sealed, (len(sealed)-1)*8+lr.Intn(8))
+							bad = zvFlipBit(sealed, (len(sealed)-1)*8+lr.Intn(8))
 						case "ciphertext-bit":
-							bad = flipBit(sealed, lr.Intn(len(c.pt)*8))
+							bad = zvFlipBit(sealed, lr.Intn(len(c.pt)*8))
 						default:
 							aadP = append(append([]byte{}, c.aad...), 7)
 						}
@@ -340,7 +340,7 @@ func TestVerifC07(t *testing.T) {
 						{
 							// CTR decryption of the forged ciphertext by the model (what a decrypt-before-verify would produce)
 							j0 := g.J0(c.nonce)
-							copy(wouldBe, refCTR(g, j0, bad[:len(c.pt)]))
+							copy(wouldBe, zvRefCTR(g, j0, bad[:len(c.pt)]))
 						}
 						for _, inplace := range []bool{false, true} {
 							var buf, in []byte
@@ -379,13 +379,13 @@ func TestVerifC07(t *testing.T) {
 					}
 				}
 				// the same buffers opened again after all of the above: still authentic
-				open(a, c, openProbe{c.nonce, sealed, c.aad, "authentic-reopened"}, c.pt, true)
+				open(a, c, zvOpenProbe{c.nonce, sealed, c.aad, "authentic-reopened"}, c.pt, true)
 				r.EvalN(pn+"|"+c.class(), n+1)
 			})
 
 			// (1a) AEADs of different tag and nonce sizes derived from ONE Block, used, dropped and used again in all orders:
 			// each opens exactly the messages of its own parameters
-			lifetimeHistories(r, rng, pn, hk.N(4, 24), false, false, true)
+			zvLifetimeHistories(r, rng, pn, hk.N(4, 24), false, false, true)
 			{
 				key := rng.Bytes(16)
 				blk, _ := NewCipher(key)
@@ -422,11 +422,11 @@ func TestVerifC07(t *testing.T) {
 			{
 				key := rng.Bytes(16)
 				g := ref.NewGCM(key)
-				a, err := newAEAD(key, 12, 16)
+				a, err := zvNewAEAD(key, 12, 16)
 				if err == nil {
 					nonce, aad, pt := rng.Bytes(12), rng.Bytes(5), rng.Bytes(20)
 					sealed := g.Seal(nonce, pt, aad, 16)
-					bad := flipBit(sealed, 3)
+					bad := zvFlipBit(sealed, 3)
 					accepted := 0
 					nForged := 1<<16 + 10
 					if hk.Thorough() {
@@ -454,14 +454,14 @@ func TestVerifC07(t *testing.T) {
 			{
 				key := rng.Bytes(16)
 				g := ref.NewGCM(key)
-				a, err := newAEAD(key, 12, 16)
+				a, err := zvNewAEAD(key, 12, 16)
 				if err == nil {
 					type msgT struct{ nonce, aad, pt, sealed, bad []byte }
 					var msgs []msgT
 					for _, l := range []int{0, 1, 16, 31, 64, 200, 300, 1000} {
 						m := msgT{nonce: rng.Bytes(12), aad: rng.Bytes(rng.Intn(40)), pt: rng.Bytes(l)}
 						m.sealed = g.Seal(m.nonce, m.pt, m.aad, 16)
-						m.bad = flipBit(m.sealed, rng.Intn(len(m.sealed)*8))
+						m.bad = zvFlipBit(m.sealed, rng.Intn(len(m.sealed)*8))
 						msgs = append(msgs, m)
 					}
 					nOps := hk.N(6000, 60000)
@@ -490,8 +490,8 @@ func TestVerifC07(t *testing.T) {
 				}
 				g := ref.NewGCM(c.key)
 				sealed := g.Seal(c.nonce, c.pt, c.aad, c.tag)
-				a, err := newAEAD(c.key, len(c.nonce), c.tag)
-				if err == errComboUnreachable {
+				a, err := zvNewAEAD(c.key, len(c.nonce), c.tag)
+				if err == zvErrComboUnreachable {
 					r.Class("trivial:nonce-x-tag-not-offered-on-this-path")
 					continue
 				}
@@ -499,45 +499,45 @@ func TestVerifC07(t *testing.T) {
 					r.Violation("cannot-construct-aead:"+pn, hk.D{"err": err.Error()})
 					continue
 				}
-				var probes []openProbe
+				var probes []zvOpenProbe
 				for b := 0; b < len(sealed)*8; b++ {
 					lab := "bitflip-ciphertext"
 					if b >= len(c.pt)*8 {
 						lab = "bitflip-tag"
 					}
-					probes = append(probes, openProbe{c.nonce, flipBit(sealed, b), c.aad, lab})
+					probes = append(probes, zvOpenProbe{c.nonce, zvFlipBit(sealed, b), c.aad, lab})
 				}
 				for b := 0; b < len(c.nonce)*8; b++ {
-					probes = append(probes, openProbe{flipBit(c.nonce, b), sealed, c.aad, "bitflip-nonce"})
+					probes = append(probes, zvOpenProbe{zvFlipBit(c.nonce, b), sealed, c.aad, "bitflip-nonce"})
 				}
 				for b := 0; b < len(c.aad)*8; b++ {
-					probes = append(probes, openProbe{c.nonce, sealed, flipBit(c.aad, b), "bitflip-aad"})
+					probes = append(probes, zvOpenProbe{c.nonce, sealed, zvFlipBit(c.aad, b), "bitflip-aad"})
 				}
 				for l := 0; l < len(sealed); l++ {
 					lab := "truncated"
 					if l < c.tag {
 						lab = "shorter-than-tag"
 					}
-					probes = append(probes, openProbe{c.nonce, sealed[:l], c.aad, lab})
+					probes = append(probes, zvOpenProbe{c.nonce, sealed[:l], c.aad, lab})
 					if l > 0 && l%7 == 0 {
-						probes = append(probes, openProbe{c.nonce, sealed[l:], c.aad, "front-truncated"})
+						probes = append(probes, zvOpenProbe{c.nonce, sealed[l:], c.aad, "front-truncated"})
 					}
 				}
 				for e := 1; e <= 32; e++ {
-					probes = append(probes, openProbe{c.nonce, append(append([]byte{}, sealed...), rng.Bytes(e)...), c.aad, "extended"})
-					probes = append(probes, openProbe{c.nonce, append(rng.Bytes(e), sealed...), c.aad, "front-extended"})
+					probes = append(probes, zvOpenProbe{c.nonce, append(append([]byte{}, sealed...), rng.Bytes(e)...), c.aad, "extended"})
+					probes = append(probes, zvOpenProbe{c.nonce, append(rng.Bytes(e), sealed...), c.aad, "front-extended"})
 				}
 				// tag truncated / extended relative to what the AEAD expects
 				for dl := 1; dl <= 4 && dl <= len(sealed); dl++ {
-					probes = append(probes, openProbe{c.nonce, sealed[:len(sealed)-dl], c.aad, "tag-truncated"})
+					probes = append(probes, zvOpenProbe{c.nonce, sealed[:len(sealed)-dl], c.aad, "tag-truncated"})
 				}
 				if len(c.nonce) == len(c.aad) {
-					probes = append(probes, openProbe{c.aad, sealed, c.nonce, "swapped-nonce-aad"})
+					probes = append(probes, zvOpenProbe{c.aad, sealed, c.nonce, "swapped-nonce-aad"})
 				}
-				probes = append(probes, openProbe{c.nonce, sealed, nil, "aad-dropped"}, openProbe{c.nonce, sealed, sealed, "aad=ciphertext"})
+				probes = append(probes, zvOpenProbe{c.nonce, sealed, nil, "aad-dropped"}, zvOpenProbe{c.nonce, sealed, sealed, "aad=ciphertext"})
 				// every byte string shorter than the tag, of a few contents
 				for l := 0; l < c.tag; l++ {
-					probes = append(probes, openProbe{c.nonce, make([]byte, l), c.aad, "shorter-than-tag"}, openProbe{c.nonce, rng.Bytes(l), c.aad, "shorter-than-tag"})
+					probes = append(probes, zvOpenProbe{c.nonce, make([]byte, l), c.aad, "shorter-than-tag"}, zvOpenProbe{c.nonce, rng.Bytes(l), c.aad, "shorter-than-tag"})
 				}
 				counts := map[string]int{}
 				var mu = make(chan struct{}, 1)
@@ -562,13 +562,13 @@ func TestVerifC07(t *testing.T) {
 	}
 }
 
-func flipBit(b []byte, bit int) []byte {
+func zvFlipBit(b []byte, bit int) []byte {
 	o := append([]byte{}, b...)
 	o[bit/8] ^= 1 << uint(bit%8)
 	return o
 }
 
 // refCTR is the model's CTR keystream application starting at inc32(J0).
-func refCTR(g *ref.GCM, j0 [16]byte, in []byte) []byte {
+func zvRefCTR(g *ref.GCM, j0 [16]byte, in []byte) []byte {
 	return g.CTR(j0, in)
 }
